@@ -26,7 +26,8 @@ LEVEL = "model_checking"
 RULE = ("E4: outline template with the 6 placeholder positions {name, step name, doc-string, step-table heading, "
         "step-table cell, tag} independently switched on (text with <a> <b> and the unknown <zz>) or off (same text "
         "with plain a b zz) = 64 masks; 0-2 examples blocks of 0-2 rows (13 shapes), column order (a,b)/(b,a), block "
-        "tags none/two, block name given/empty, cell values {x, '', ue-umlaut, b (the OTHER column's name as plain "
+        "tags {none, (e1 e.2), (dir/x e+1!) = characters the tag normalisation would strip, (e<a> e<zz>) = placeholder "
+        "text inside a BLOCK tag, which must stay as written}, block name given/empty, cell values {x, '', ue-umlaut, b (the OTHER column's name as plain "
         "text), 'x y'}, annotation schema {default, '{name} [{row.id}]', '{name}'}. Deviation = a non-'x' cell, a "
         "(b,a) block, a tagged block, a non-default schema. quick: all 64 masks x all shapes x <=1 deviation, full mask "
         "x <=2 deviations; thorough: all masks x <=2, full mask x <=3, and full mask x ALL value/order/tag/schema "
@@ -42,7 +43,7 @@ ASSUMPTIONS = [
     "cell values containing '<' or '>' are excluded (sequential vs simultaneous substitution differ only there)",
     "tag-position values are tag-safe after the documented Tag.make_name normalisation (blank -> '_'), which the oracle applies",
     "generated scenario name = annotation schema applied to the substituted outline name, row id 'B.R' (1-based block.row) and the examples name",
-    "tags are compared as multisets (the statement does not order them)",
+    "tags are compared as multisets (the statement does not order them); examples-block tags are compared by exact text",
     "placeholders whose column does not exist are 'text without placeholders': left unchanged; tags still carrying one are dropped (documented)",
     "E2 dedup: canonical state = examples blocks (name, tags, headings, cells, row lines, modified flag) + the cached expansion; run statuses are not part of it (no operation of the alphabet reads them); the thorough tier re-searches without dedup to depth 4 and demands the same canonical states (this self-check rejected a first abstraction that left out block name/tags/row lines)",
 ]
@@ -52,7 +53,11 @@ FULL = 63
 VALUES = (u"x", u"", u"\xfc", u"b", u"x y")
 SCHEMAS = (None, u"{name} [{row.id}]", u"{name}")
 DEFAULT_SCHEMA = u"{name} -- @{row.id} {examples.name}"
-BLOCK_TAGS = (u"e1", u"e.2")
+# examples-block tag sets: index 0 = untagged; 1 = plain; 2 = characters that Tag.make_name would strip (legal tag
+# tokens: the Gherkin tag grammar is '@' + any run of non-blank characters); 3 = '<col>' text inside a BLOCK tag, which
+# must stay exactly as written (the statement substitutes placeholders in the OUTLINE's tags only; the block's tags
+# are "additionally included")
+BLOCK_TAGSETS = ((), (u"e1", u"e.2"), (u"dir/x", u"e+1!"), (u"e<a>", u"e<zz>"))
 BLOCK_NAMES = (u"Ex one", u"")
 
 
@@ -92,7 +97,7 @@ def block_model(block, index):
     order, tagged, rows = block
     heads = [u"a", u"b"] if order == 0 else [u"b", u"a"]
     cells = [[va, vb] if order == 0 else [vb, va] for va, vb in rows]
-    return {"name": BLOCK_NAMES[index % 2], "tags": list(BLOCK_TAGS) if tagged else [], "headings": heads,
+    return {"name": BLOCK_NAMES[index % 2], "tags": list(BLOCK_TAGSETS[int(tagged)]), "headings": heads,
             "rows": cells}
 
 
@@ -173,7 +178,8 @@ def ref_expand(tmpl, blocks, schema):
                 if table is not None:
                     tb = ([subst(h, row) for h in table[0]], [[subst(c, row) for c in r] for r in table[1]])
                 steps.append((kw, subst(sname, row), None if text is None else subst(text, row), tb))
-            out.append({"name": full, "tags": sorted(tags), "steps": steps, "bi": bi, "ri": ri})
+            out.append({"name": full, "tags": sorted(tags), "btags": list(b["tags"]), "steps": steps, "bi": bi,
+                        "ri": ri})
     return out
 
 
@@ -209,6 +215,12 @@ def first_field_diff(got, want):
     if got["name"] != want["name"]:
         return "name", got["name"], want["name"]
     if got["tags"] != want["tags"]:
+        left = list(got["tags"])
+        for t in want.get("btags", ()):          # are the block's tags there, exactly as written?
+            if t in left:
+                left.remove(t)
+            else:
+                return "examples-block-tags", got["tags"], want["tags"]
         return "tags", got["tags"], want["tags"]
     if len(got["steps"]) != len(want["steps"]):
         return "step-count", len(got["steps"]), len(want["steps"])
@@ -250,6 +262,8 @@ def compare_expansion(scenarios, want, row_lines, outline, base, what):
                       "%s: scenario #%d (block %d row %d) is located at line %r, its row at line %r"
                       % (what, k + 1, w["bi"] + 1, w["ri"] + 1, g["line"], wl)))
             return v
+        # (the .line attribute of the included block tags is NOT demanded: the statement speaks of the tags, not of
+        # their bookkeeping attributes - a clause doing so was removed as over-strict, DESIGN 9.2)
         if s.parent is not outline:
             v.append((dict(base, clause="parent-is-not-the-outline"), "%s: scenario #%d parent is %r"
                       % (what, k + 1, s.parent)))
@@ -495,7 +509,7 @@ def slots(shape):
     out = []
     for bi, nr in enumerate(shape):
         out.append((("order", bi), (1,)))
-        out.append((("tagged", bi), (True,)))
+        out.append((("tagged", bi), (1, 2, 3)))
         for ri in range(nr):
             for ci in range(2):
                 out.append((("cell", bi, ri, ci), VALUES[1:]))
@@ -504,7 +518,7 @@ def slots(shape):
 
 
 def apply_devs(shape, devs):
-    blocks = [[0, False, [[VALUES[0], VALUES[0]] for _ in range(nr)]] for nr in shape]
+    blocks = [[0, 0, [[VALUES[0], VALUES[0]] for _ in range(nr)]] for nr in shape]
     schema = 0
     for slot, val in devs:
         if slot[0] == "order":
@@ -542,7 +556,7 @@ def exhaustive_value_cases(mask, max_rows):
         ncell = 2 * sum(shape)
         for vals in itertools.product(VALUES, repeat=ncell):
             for orders in itertools.product((0, 1), repeat=len(shape)):
-                for tagged in itertools.product((False, True), repeat=len(shape)):
+                for tagged in itertools.product((0, 1, 2, 3) if len(shape) == 1 else (0, 3), repeat=len(shape)):
                     it = iter(vals)
                     blocks = tuple((orders[bi], tagged[bi], tuple((next(it), next(it)) for _ in range(nr)))
                                    for bi, nr in enumerate(shape))
@@ -555,8 +569,8 @@ def exhaustive_value_cases(mask, max_rows):
 # =============================================================================
 STARTS = (
     (),                                                       # outline without examples
-    ((0, False, ((u"x", u"\xfc"),)),),                         # one block (a,b), one row
-    ((0, True, ((u"x", u"b"), (u"", u"x y"))), (1, False, ())),   # two blocks, second (b,a) and empty
+    ((0, 0, ((u"x", u"\xfc"),)),),                             # one block (a,b), one row
+    ((0, 3, ((u"x", u"b"), (u"", u"x y"))), (1, 2, ())),       # two blocks (tags e<a> e<zz> / dir/x e+1!), second (b,a), empty
 )
 ROW_PATTERNS = ({u"a": u"x", u"b": u"x", u"c": u"x"}, {u"a": u"\xfc", u"b": u"b", u"c": u"x y"})
 APPEND_KINDS = (([u"a", u"b"], [[u"x", u"\xfc"]]), ([u"b", u"a"], []))
@@ -604,7 +618,7 @@ def model_apply(model, op):
             del r[i]
     elif k == "append":
         heads, rows = APPEND_KINDS[op[1]]
-        model.append({"name": u"added", "tags": [u"e9"], "headings": list(heads), "rows": [list(r) for r in rows]})
+        model.append({"name": u"added", "tags": [u"e9", u"x/<b>"], "headings": list(heads), "rows": [list(r) for r in rows]})
 
 
 def real_apply(feature, outline, model_before, op):
@@ -627,7 +641,7 @@ def real_apply(feature, outline, model_before, op):
     elif k == "append":
         heads, rows = APPEND_KINDS[op[1]]
         line = 100 + 10 * len(outline.examples)
-        outline.examples.append(make_examples({"name": u"added", "tags": [u"e9"], "headings": heads, "rows": rows},
+        outline.examples.append(make_examples({"name": u"added", "tags": [u"e9", u"x/<b>"], "headings": heads, "rows": rows},
                                               line, len(outline.examples)))
 
 
